@@ -1,12 +1,490 @@
-/-! Executable model for property C07 (core-only).  Not built yet: the driver answers
-    `unimplemented` so that a check of this property cannot pass by accident. -/
+/-! Executable model for property C07 (core-only): ChannelQueue and BufferedChannelQueue (queue.go).
+
+    BufferedChannelQueue is a transition system over any number of anonymous producers / consumers (a step
+    names the value it moves) and the one loader goroutine.  Atoms (re-derived from the CURRENT code, i.e.
+    after fix c8ecf0a: `notifyWorkers` runs under RLock, the loader re-checks `isClosed` under the lock):
+
+      Offer(v):  ⟨Lock; n := pool.Count()⟩                           offerLock v   (lock := producer v (n = 0))
+                 [n = 0] ⟨try-send v on chan: buffered⟩               offerChan v   → nil
+                 [n = 0] ⟨try-send v on chan: to a waiting receiver⟩  offerHandoff v → nil
+                 [try-send failed or n ≠ 0] ⟨n ≥ b⟩                   offerFull v   → ErrQueueIsFull
+                 [otherwise] ⟨pool.Offer v; try-send token⟩           offerPool v   → nil     (each ends with Unlock)
+      notifyWorkers (first atom of Take / TakeWithTimeout / Poll / GetChannel):
+                 ⟨RLock; try-send token; RUnlock⟩                     notify        (needs no writer)
+      Take / receive on GetChannel():  ⟨block in receive⟩ recvWait ; ⟨receive head⟩ recvTake
+      Poll:      ⟨try-receive⟩  tryRecv (head)  |  pollEmpty → ErrQueueIsEmpty (only when chan = [])
+      loader:    ⟨receive token⟩ loaderWake ; ⟨Lock⟩ loaderLock ; loop { ⟨pool.Count() > 0; x := pool.Poll()⟩ loaderPoll ;
+                 ⟨try-send x: ok⟩ loaderSend / loaderHandoff  |  ⟨failed: pool.Unshift x; leave⟩ loaderUnshift } ;
+                 ⟨pool empty: leave; Unlock⟩ loaderDone            (the sleep is time = nondeterminism)
+
+    Ghost history: `accepted` (values whose Offer returned nil, in lock order), `delivered` (values handed to a
+    consumer, in receive order).  The open queue only: `isClosed` is false throughout (shutdown races are C15). -/
+
 namespace FpgoVerif.C07
 
-/-- one protocol case line in, one canonical observation line out -/
-def handle (_line : String) : String := "unimplemented"
+/-- who holds `q.lock` exclusively -/
+inductive Holder | free | producer (v : Nat) (sawPoolEmpty : Bool) | loader
+deriving DecidableEq, Repr
 
-/-- spec-level oracle: given the case line and the observation printed by the real code, decide
-    whether the *property* is violated (`violation <why>`) or not (`allowed <why>`). -/
-def judge (_line _impl : String) : String := "violation model-and-implementation-disagree"
+/-- loader goroutine: blocked on the token channel / token taken, before `Lock` / inside the locked loop -/
+inductive LPc | waiting | woke | inpass
+deriving DecidableEq, Repr
+
+structure St where
+  c : Nat                 -- channelCapacity
+  b : Nat                 -- bufferSizeMaximum
+  chan : List Nat         -- blockingQueue buffer
+  pool : List Nat         -- overflow list
+  inflight : Option Nat   -- loader: polled from the pool, not yet offered to the channel
+  token : Bool            -- loadWorkerCh (capacity 1)
+  lock : Holder
+  lpc : LPc
+  waiters : Nat           -- consumers blocked in a receive on the channel
+  accepted : List Nat
+  delivered : List Nat
+deriving DecidableEq, Repr
+
+def init (c b : Nat) : St := ⟨c, b, [], [], none, false, .free, .waiting, 0, [], []⟩
+
+inductive Act
+  | offerLock (v : Nat) | offerChan (v : Nat) | offerHandoff (v : Nat) | offerFull (v : Nat) | offerPool (v : Nat)
+  | notify | recvWait | recvTake | tryRecv | pollEmpty
+  | loaderWake | loaderLock | loaderPoll | loaderSend | loaderHandoff | loaderUnshift | loaderDone
+deriving DecidableEq, Repr
+
+/-- the channel try-send of `Offer` is attempted only when the pool was seen empty; it fails iff the buffer
+    is full and no receiver waits -/
+def trySendFails (s : St) : Prop := s.c ≤ s.chan.length ∧ (s.waiters = 0 ∨ s.chan ≠ [])
+
+instance (s : St) : Decidable (trySendFails s) := by unfold trySendFails; exact inferInstance
+
+/-- one atomic action; `none` = not enabled -/
+def step (s : St) : Act → Option St
+  | .offerLock v =>
+    if s.lock = .free then some { s with lock := .producer v s.pool.isEmpty } else none
+  | .offerChan v =>
+    if s.lock = .producer v true ∧ s.chan.length < s.c then
+      some { s with chan := s.chan ++ [v], accepted := s.accepted ++ [v], lock := .free } else none
+  | .offerHandoff v =>
+    if s.lock = .producer v true ∧ s.chan = [] ∧ 0 < s.waiters then
+      some { s with waiters := s.waiters - 1, accepted := s.accepted ++ [v], delivered := s.delivered ++ [v], lock := .free }
+    else none
+  | .offerFull v =>
+    if (s.lock = .producer v false ∨ (s.lock = .producer v true ∧ trySendFails s)) ∧ s.b ≤ s.pool.length then
+      some { s with lock := .free } else none
+  | .offerPool v =>
+    if (s.lock = .producer v false ∨ (s.lock = .producer v true ∧ trySendFails s)) ∧ s.pool.length < s.b then
+      some { s with pool := s.pool ++ [v], accepted := s.accepted ++ [v], token := true, lock := .free } else none
+  | .notify => if s.lock = .free then some { s with token := true } else none
+  | .recvWait => some { s with waiters := s.waiters + 1 }
+  | .recvTake =>
+    match s.chan with
+    | x :: rest => if 0 < s.waiters then some { s with chan := rest, waiters := s.waiters - 1, delivered := s.delivered ++ [x] } else none
+    | [] => none
+  | .tryRecv =>
+    match s.chan with
+    | x :: rest => some { s with chan := rest, delivered := s.delivered ++ [x] }
+    | [] => none
+  | .pollEmpty => if s.chan = [] then some s else none
+  | .loaderWake => if s.token = true ∧ s.lpc = .waiting then some { s with token := false, lpc := .woke } else none
+  | .loaderLock => if s.lpc = .woke ∧ s.lock = .free then some { s with lock := .loader, lpc := .inpass } else none
+  | .loaderPoll =>
+    match s.pool with
+    | x :: rest => if s.lock = .loader ∧ s.inflight = none then some { s with pool := rest, inflight := some x } else none
+    | [] => none
+  | .loaderSend =>
+    match s.inflight with
+    | some x => if s.lock = .loader ∧ s.chan.length < s.c then some { s with chan := s.chan ++ [x], inflight := none } else none
+    | none => none
+  | .loaderHandoff =>
+    match s.inflight with
+    | some x => if s.lock = .loader ∧ s.chan = [] ∧ 0 < s.waiters then
+        some { s with waiters := s.waiters - 1, delivered := s.delivered ++ [x], inflight := none } else none
+    | none => none
+  | .loaderUnshift =>
+    match s.inflight with
+    | some x => if s.lock = .loader ∧ trySendFails s then
+        some { s with pool := x :: s.pool, inflight := none, lock := .free, lpc := .waiting } else none
+    | none => none
+  | .loaderDone =>
+    if s.lock = .loader ∧ s.inflight = none ∧ s.pool = [] then some { s with lock := .free, lpc := .waiting } else none
+
+def run : St → List Act → Option St
+  | s, [] => some s
+  | s, a :: as => match step s a with
+    | some s' => run s' as
+    | none => none
+
+/-- reachable from the empty queue with capacities `c`, `b` by some schedule of any length -/
+def Reach (c b : Nat) (s : St) : Prop := ∃ acts, run (init c b) acts = some s
+
+/-- `Count()`: len(blockingQueue) + pool.Count() (read under RLock, i.e. with no pass in progress) -/
+def count (s : St) : Nat := s.chan.length + s.pool.length
+
+/-! ### composite operations as the code performs them (used by the driver; each is a sequence of `step`s) -/
+
+def stepD (s : St) (a : Act) : St := (step s a).getD s
+
+/-- a complete `Offer(v)` with the lock free: Lock, then the branch the code takes -/
+def offerCall (s : St) (v : Nat) : St × String :=
+  match step s (.offerLock v) with
+  | none => (s, "blocked")
+  | some s1 =>
+    match step s1 (.offerChan v) with
+    | some s2 => (s2, "nil")
+    | none =>
+      match step s1 (.offerHandoff v) with
+      | some s2 => (s2, "nil")
+      | none =>
+        match step s1 (.offerFull v) with
+        | some s2 => (s2, "full")
+        | none =>
+          match step s1 (.offerPool v) with
+          | some s2 => (s2, "nil")
+          | none => (s1, "stuck")
+
+/-- `Poll()` with the lock free: notify, then try-receive -/
+def pollCall (s : St) : St × String :=
+  let s1 := stepD s .notify
+  match s1.chan with
+  | x :: _ => (stepD s1 .tryRecv, s!"ok {x}")
+  | [] => (stepD s1 .pollEmpty, "empty")
+
+/-- after a token: the loader takes it (it then stands before `Lock`) -/
+def syncLoader (s : St) : St :=
+  if s.lpc = .waiting then stepD (stepD s .notify) .loaderWake else s
+
+/-- the loader continues inside its loop until the next `pool.Poll()` or the end of the pass -/
+def loaderNext (s : St) : St × String :=
+  match s.pool with
+  | [] => (stepD s .loaderDone, "pass-done")
+  | _ :: _ => (stepD s .loaderPoll, "polled")
+
+/-! ### directed schedules: `sched c=C b=B: step ; step ; …` -/
+
+structure Sched where
+  s : St
+  pending : Option Nat     -- an Offer started while the loader holds the lock
+  taking : Bool := false   -- a consumer is blocked in Take() (the channel is empty while this holds)
+
+/-- a consumer blocked in `Take` receives as soon as the channel holds a value -/
+def serve (m : Sched) (out : String) : Sched × String :=
+  if m.taking then
+    match m.s.chan with
+    | x :: _ => ({ m with s := stepD m.s .recvTake, taking := false }, out ++ s!" take=ok {x}")
+    | [] => (m, out)
+  else (m, out)
+
+def afterPass (m : Sched) (out : String) : Sched × String :=
+  match m.pending with
+  | some v =>
+    let (s1, r) := offerCall m.s v
+    ({ m with s := syncLoader s1, pending := none }, out ++ " offer=" ++ r)
+  | none => ({ m with s := syncLoader m.s }, out)
+
+def schedStep (m : Sched) (tok : String) : Sched × String :=
+  let inpass := m.s.lpc == .inpass
+  match tok.splitOn ":" with
+  | ["o", v] =>
+    match v.toNat? with
+    | none => (m, "bad-op")
+    | some v =>
+      if inpass then
+        if m.pending.isSome || m.taking then (m, "skip") else ({ m with pending := some v }, "pending")
+      else
+        let (s1, r) := offerCall m.s v
+        serve { m with s := s1 } (if r == "full" then s!"full pool={s1.pool.length}" else r)
+  | ["B"] =>       -- a consumer thread calls Take() on an empty channel and blocks in the receive
+    if inpass || m.taking || m.s.c == 0 || !m.s.chan.isEmpty then (m, "skip")
+    else ({ m with s := stepD (stepD m.s .notify) .recvWait, taking := true }, "started")
+  | ["p"] => if inpass then (m, "skip") else let (s1, r) := pollCall m.s; ({ m with s := s1 }, r)
+  | ["t"] =>
+    if inpass then (m, "skip") else
+    let s1 := stepD m.s .notify
+    match s1.chan with
+    | x :: _ => ({ m with s := stepD (stepD s1 .recvWait) .recvTake }, s!"ok {x}")
+    | [] => ({ m with s := s1 }, "timeout")
+  | ["T"] =>
+    if inpass then (m, "skip") else
+    match m.s.chan with
+    | x :: _ => ({ m with s := stepD (stepD (stepD m.s .notify) .recvWait) .recvTake }, s!"ok {x}")
+    | [] => (m, "skip")
+  | ["r"] =>
+    match m.s.chan with
+    | x :: _ => ({ m with s := stepD m.s .tryRecv }, s!"ok {x}")
+    | [] => (m, "none")
+  | ["n"] => if inpass then (m, "skip") else (m, s!"n {count m.s}")
+  | ["L"] =>
+    if m.s.lpc == .woke then
+      let s1 := stepD m.s .loaderLock
+      let (s2, r) := loaderNext s1
+      if r == "pass-done" then afterPass { m with s := s2 } r else ({ m with s := s2 }, r)
+    else (m, "skip")
+  | ["S"] =>
+    if inpass then
+      match step m.s .loaderSend with
+      | some s1 =>
+        let (m1, suffix) := serve { m with s := s1 } ""
+        let (s2, r) := loaderNext m1.s
+        if r == "pass-done" then afterPass { m1 with s := s2 } ("moved " ++ r ++ suffix)
+        else ({ m1 with s := s2 }, "moved " ++ r ++ suffix)
+      | none =>
+        match step m.s .loaderUnshift with
+        | some s1 => afterPass { m with s := s1 } "unshift pass-done"
+        | none => (m, "stuck")
+    else (m, "skip")
+  | _ => (m, "bad-op")
+
+def splitOps (body : String) : List String :=
+  ((body.splitOn ";").map (fun t => t.trimAscii.toString)).filter (· ≠ "")
+
+def splitHead (line : String) : String × String :=
+  match line.splitOn ": " with
+  | [h] => (h, "")
+  | h :: rest => (h, ": ".intercalate rest)
+  | [] => ("", "")
+
+def field (toks : List String) (k : String) : Nat :=
+  match toks.find? (fun t => t.startsWith (k ++ "=")) with
+  | some t => ((t.drop (k.length + 1)).toString.toNat?).getD 0
+  | none => 0
+
+def fieldS (toks : List String) (k : String) : String :=
+  match toks.find? (fun t => t.startsWith (k ++ "=")) with
+  | some t => (t.drop (k.length + 1)).toString
+  | none => ""
+
+def schedCase (toks : List String) (body : String) : String :=
+  let s0 := syncLoader (init (field toks "c") (field toks "b"))
+  let (_, outs) := (splitOps body).foldl (fun (acc : Sched × List String) tok =>
+    let (m, o) := schedStep acc.1 tok
+    (m, o :: acc.2)) (({ s := s0, pending := none } : Sched), [])
+  " | ".intercalate outs.reverse
+
+/-! ### ChannelQueue's own wrappers: `chq cap=K: step ; …` over a Go channel (FIFO buffer, closed flag) -/
+
+structure Ch where
+  cap : Nat
+  buf : List Nat
+  closed : Bool
+
+inductive ChRes | val (v : Nat) | empty | closed
+deriving DecidableEq, Repr
+
+/-- `select { case q <- v: … default: … }` on an open channel (no receiver is waiting in these cases) -/
+def chTrySend (ch : Ch) (v : Nat) : Ch × Bool :=
+  if ch.buf.length < ch.cap then ({ ch with buf := ch.buf ++ [v] }, true) else (ch, false)
+
+/-- `select { case val, ok := <-q: … default: … }`: head of the buffer; on a closed, drained channel the
+    receive succeeds with `ok = false`, which the wrappers (after fix 1a3cb23) turn into ErrQueueIsClosed -/
+def chTryRecv (ch : Ch) : Ch × ChRes :=
+  match ch.buf with
+  | x :: rest => ({ ch with buf := rest }, .val x)
+  | [] => (ch, if ch.closed then .closed else .empty)
+
+def chqStep (ch : Ch) (tok : String) : Ch × String :=
+  match tok.splitOn ":" with
+  | ["o", v] =>      -- Offer: select { case q <- v | default }
+    if ch.closed then (ch, "skip") else
+    let r := chTrySend ch v.toNat!
+    (r.1, if r.2 then "nil" else "full")
+  | ["w", v] =>      -- PutWithTimeout
+    if ch.closed then (ch, "skip") else
+    let r := chTrySend ch v.toNat!
+    (r.1, if r.2 then "nil" else "timeout")
+  | ["U", v] =>      -- Put (only issued when it cannot block)
+    if ch.closed ∨ ch.cap ≤ ch.buf.length then (ch, "skip") else ((chTrySend ch v.toNat!).1, "nil")
+  | ["p"] =>         -- Poll
+    let r := chTryRecv ch
+    (r.1, match r.2 with | .val x => s!"ok {x}" | .empty => "empty" | .closed => "closed")
+  | ["t"] =>         -- TakeWithTimeout
+    let r := chTryRecv ch
+    (r.1, match r.2 with | .val x => s!"ok {x}" | .empty => "timeout" | .closed => "closed")
+  | ["T"] =>         -- Take (only issued when it cannot block)
+    let r := chTryRecv ch
+    (r.1, match r.2 with | .val x => s!"ok {x}" | .empty => "skip" | .closed => "closed")
+  | ["x"] => if ch.closed then (ch, "skip") else ({ ch with closed := true }, "nil")
+  | _ => (ch, "bad-op")
+
+def chqCase (toks : List String) (body : String) : String :=
+  let (_, outs) := (splitOps body).foldl (fun (acc : Ch × List String) tok =>
+    let (m, o) := chqStep acc.1 tok
+    (m, o :: acc.2)) (⟨field toks "cap", [], false⟩, [])
+  " | ".intercalate outs.reverse
+
+/-! ### stress: the model runs a scaled-down instance under a seeded scheduler -/
+
+def lcg (x : Nat) : Nat := (x * 6364136223846793005 + 1442695040888963407) % 18446744073709551616
+
+structure Sim where
+  s : St
+  todo : List (List Nat)    -- per producer: values still to offer
+  rng : Nat
+
+/-- one scheduler choice: a producer's whole Offer (if the lock is free), a consumer's Poll, or one loader atom -/
+def simStep (m : Sim) : Sim :=
+  let rng := lcg m.rng
+  let r := (rng / 65536) % 8
+  let m := { m with rng := rng }
+  if r < 3 then
+    -- some producer with work left offers its next value (retries later when full)
+    let np := m.todo.length
+    if np = 0 then m else
+    let i := (rng / 1048576) % np
+    match m.todo.getD i [] with
+    | [] => m
+    | v :: rest =>
+      if m.s.lock = .free then
+        let (s1, res) := offerCall m.s v
+        if res == "nil" then { m with s := s1, todo := m.todo.set i rest } else { m with s := s1 }
+      else m
+  else if r < 5 then
+    if m.s.lock = .free then { m with s := (pollCall m.s).1 } else m
+  else
+    -- the loader performs its next atom, whichever is enabled
+    let try1 := fun (s : St) (a : Act) => step s a
+    match try1 m.s .loaderWake with
+    | some s1 => { m with s := s1 }
+    | none => match try1 m.s .loaderLock with
+      | some s1 => { m with s := s1 }
+      | none => match try1 m.s .loaderSend with
+        | some s1 => { m with s := s1 }
+        | none => match try1 m.s .loaderUnshift with
+          | some s1 => { m with s := s1 }
+          | none => match try1 m.s .loaderPoll with
+            | some s1 => { m with s := s1 }
+            | none => match try1 m.s .loaderDone with
+              | some s1 => { m with s := s1 }
+              | none => m
+
+def simLoop : Nat → Sim → Sim
+  | 0, m => m
+  | fuel + 1, m =>
+    if m.todo.all (·.isEmpty) && m.s.delivered.length == m.s.accepted.length && m.s.lock == .free then m
+    else simLoop fuel (simStep m)
+
+/-- projection of a list of producer-tagged values to one producer -/
+def ofProducer (p : Nat) (l : List Nat) : List Nat := l.filter (fun v => v / 100000 == p)
+
+def stressCase (toks : List String) : String :=
+  let c := field toks "c"; let b := field toks "b"; let p := field toks "p"; let n := field toks "n"
+  let seed := field toks "seed"
+  if p = 0 then "bad-case" else
+  if c = 0 then "ok safe" else
+  let n' := min n (max 1 (120 / p))
+  let todo := (List.range p).map (fun t => (List.range n').map (fun i => t * 100000 + i))
+  let m := simLoop (p * n' * 1600 + 16384) ⟨init c b, todo, seed + 1⟩
+  let okAll := m.todo.all (·.isEmpty) && m.s.delivered == m.s.accepted && m.s.delivered.length == p * n' &&
+    (List.range p).all (fun t => ofProducer t m.s.delivered == (List.range n').map (fun i => t * 100000 + i))
+  if okAll then s!"ok accepted={p * n} delivered={p * n}" else "viol model-stranded"
+
+/-- protocol entry point -/
+def handle (line : String) : String :=
+  let (head, body) := splitHead line
+  let toks := (head.splitOn " ").filter (· ≠ "")
+  match toks with
+  | "sched" :: _ => schedCase toks body
+  | "chq" :: _ => chqCase toks body
+  | "stress" :: _ => stressCase toks
+  | _ => "bad-case"
+
+/-! ### spec-level oracle: the property's own statement evaluated on the observed outputs -/
+
+structure Track where
+  accepted : List Nat := []
+  ndelivered : Nat := 0
+  pendingV : Option Nat := none
+  closed : Bool := false
+  verdict : Option String := none
+
+def Track.held (t : Track) : Nat := t.accepted.length - t.ndelivered
+
+def flag (t : Track) (why : String) : Track :=
+  match t.verdict with | none => { t with verdict := some why } | some _ => t
+
+/-- one observed result token checked against: FIFO exactly-once delivery in acceptance order, the bound
+    `c + b`, `full` only with at least `b` values held, Count = accepted − delivered -/
+def trackObs (cap b : Nat) (t : Track) (op obs : String) : Track :=
+  let words0 := (obs.splitOn " ").filter (· ≠ "")
+  -- `… take=ok v`: the consumer blocked in Take() received v right after this step
+  let takeV : Option String := match words0.dropWhile (· ≠ "take=ok") with | _ :: v :: _ => some v | _ => none
+  let words := if takeV.isSome then words0.takeWhile (· ≠ "take=ok") else words0
+  let accept := fun (t : Track) (v : Nat) =>
+    if t.held ≥ cap + b then flag t s!"value {v} accepted although {t.held} values are held (bound {cap + b})"
+    else { t with accepted := t.accepted ++ [v] }
+  let isFull := fun (t : Track) =>
+    if t.held < b then flag t s!"ErrQueueIsFull with only {t.held} values held (buffer maximum {b})" else t
+  let opv := match op.splitOn ":" with | [_, v] => v.toNat? | _ => none
+  let t := match words with
+    | ["ok", v] =>
+      (match v.toNat? with
+       | some v => if t.accepted[t.ndelivered]? = some v then { t with ndelivered := t.ndelivered + 1 }
+                   else flag t s!"delivered {v} but the next accepted value is {t.accepted[t.ndelivered]?}"
+       | none => flag t "unparsable value")
+    | ["nil"] => (match opv with | some v => accept t v | none => t)
+    | ["full"] => isFull t
+    | ["full", pk] =>      -- sched: the pool count observed (VerifState) when Offer returned ErrQueueIsFull
+      if pk == s!"pool={b}" then isFull t else flag t s!"ErrQueueIsFull with {pk}, buffer maximum {b}"
+    | ["pending"] => { t with pendingV := opv }
+    | ["n", k] => if k.toNat? = some t.held then t else flag t s!"Count {k} but accepted - delivered = {t.held}"
+    | ["panic"] => flag t "panic"
+    | ["hang"] => flag t "hang"
+    | ["blocked"] => flag t "a non-blocking call blocked"
+    | ["lost-loader"] => flag t "loader did not reach its next point"
+    | _ => t
+  -- a pending Offer completes with the pass
+  let t := if words.contains "offer=nil" then
+      (match t.pendingV with | some v => { accept t v with pendingV := none } | none => t)
+    else if words.contains "offer=full" then { isFull t with pendingV := none }
+    else t
+  let t := if words0.contains "take=blocked" ∨ words0.contains "offer=blocked" then flag t "a call that could complete stayed blocked" else t
+  match takeV with
+  | some v =>
+    (match v.toNat? with
+     | some v => if t.accepted[t.ndelivered]? = some v then { t with ndelivered := t.ndelivered + 1 }
+                 else flag t s!"Take delivered {v} but the next accepted value is {t.accepted[t.ndelivered]?}"
+     | none => flag t "unparsable value")
+  | none => t
+
+def judgeSeq (cap b : Nat) (body impl : String) : String :=
+  let ops := splitOps body
+  let obs := (impl.splitOn "|").map (fun t => t.trimAscii.toString)
+  if impl == "hang" ∨ impl == "crash" ∨ impl == "panic" then s!"violation {impl}" else
+  if ops.length ≠ obs.length then "violation malformed observation" else
+  let t := (ops.zip obs).foldl (fun t (p : String × String) => trackObs cap b t p.1 p.2) ({} : Track)
+  match t.verdict with
+  | some why => "violation " ++ why
+  | none => "allowed FIFO / exactly-once / bounds / Count hold on this observation"
+
+/-- ChannelQueue: a Go channel is the spec — FIFO, `full` only at capacity, `empty` only when empty,
+    `closed` only when closed and drained, never a value nobody offered -/
+def judgeChq (cap : Nat) (body impl : String) : String :=
+  let ops := splitOps body
+  let obs := (impl.splitOn "|").map (fun t => t.trimAscii.toString)
+  if ops.length ≠ obs.length then "violation malformed observation" else
+  let t := (ops.zip obs).foldl (fun (t : Track) (p : String × String) =>
+    let t := trackObs cap 0 t p.1 p.2
+    match p.2 with
+    | "empty" => if t.held ≠ 0 then flag t "ErrQueueIsEmpty although a value is available" else
+                 if t.closed then flag t "ErrQueueIsEmpty on a closed channel" else t
+    | "closed" => if t.closed ∧ t.held = 0 then t else flag t "ErrQueueIsClosed but not closed-and-drained"
+    | "timeout" => if p.1 == "t" ∧ t.held ≠ 0 then flag t "take timeout although a value is available"
+                   else if p.1 ≠ "t" ∧ t.held < cap then flag t "put timeout although the channel has room" else t
+    | "full" => if t.held < cap then flag t "ErrQueueIsFull although the channel has room" else t
+    | "nil" => if p.1 == "x" then { t with closed := true } else t
+    | _ => t) ({} : Track)
+  match t.verdict with
+  | some why => "violation " ++ why
+  | none => "allowed channel semantics hold on this observation"
+
+def judge (line impl : String) : String :=
+  let (head, body) := splitHead line
+  let toks := (head.splitOn " ").filter (· ≠ "")
+  match toks with
+  | "sched" :: _ => judgeSeq (field toks "c") (field toks "b") body impl
+  | "chq" :: _ => judgeChq (field toks "cap") body impl
+  | _ =>
+    if impl.startsWith "ok " then "allowed monitors silent"
+    else s!"violation {impl}"
 
 end FpgoVerif.C07
